@@ -34,7 +34,8 @@ let () =
           (match split_on ' ' hd with
            | ["U"] -> show (run_unbuf false fuel progs)
            | ["Ux"] -> show (run_unbuf true fuel progs)
-           | ["B"; c] | ["Bx"; c] -> show (run_buf (z_of_string c) fuel progs)
+           | ["B"; c] -> show (run_buf false (z_of_string c) fuel progs)
+           | ["Bx"; c] -> show (run_buf true (z_of_string c) fuel progs)
            | _ -> print_endline "BADCASE")
       | _ -> print_endline "BADCASE"
     with _ -> print_endline "BADCASE")
